@@ -84,6 +84,12 @@ func c17Conditions() []c17CondStr {
 		c17CondStr{"time >= 0x1000000", "lenient", c17Cond{"time", 0x1000000}},
 		c17CondStr{"time >= 3600.5", "lenient", c17Cond{"time", 3600.5}},
 		c17CondStr{"entropy >= 00060", "lenient", c17Cond{"entropy", 60}},
+		// thresholds in the upper half of the 64-bit range (a password whose estimated crack time exceeds them passes)
+		c17CondStr{"time >= 9223372036854775808", "lenient", c17Cond{"time", 9223372036854775808}},
+		c17CondStr{"time >= 10000000000000000000", "lenient", c17Cond{"time", 1e19}},
+		c17CondStr{"time >= 18446744073709551615", "lenient", c17Cond{"time", 18446744073709551615}},
+		c17CondStr{"entropy >= 9223372036854775808", "lenient", c17Cond{"entropy", 9223372036854775808}},
+		c17CondStr{"time >= 4294967296", "lenient", c17Cond{"time", 4294967296}},
 	)
 	return out
 }
@@ -99,6 +105,8 @@ func c17Passwords(rng *rand.Rand, n int) []string {
 	// long but trivially weak / strong passwords (129-200 bytes; zxcvbn needs < 0.1 s for these)
 	long := []string{strings.Repeat("a", 129), strings.Repeat("password", 20), strings.Repeat("a", 200), strings.Repeat("x9$Lq!2vZr#8mW@4", 9)}
 	out = append(out, long[rng.Intn(2)], long[2+rng.Intn(2)])
+	// longer than 64 bytes and weak only in l33t spelling; and a strong one whose estimated crack time exceeds 2^64 s
+	out = append(out, []string{strings.Repeat("p@ssw0rd", 9), strings.Repeat("P@55w0rd!", 8)}[rng.Intn(2)], "kT7#vQ2$mZ9!pL4^wX8&bN3*hR6@jC1%")
 	for _, p := range pws {
 		// zxcvbn's matching is super-linear in the password length: keep the rest of the corpus at realistic lengths
 		if len(p) > 48 {
